@@ -495,15 +495,51 @@ pub fn ambiguous(key: &MasterKey, store: &Store) -> bool {
     false
 }
 
+/// cases that did not come back within the time limit so far (their threads are still parked somewhere)
+static HUNG_CASES: std::sync::atomic::AtomicUsize = std::sync::atomic::AtomicUsize::new(0);
+
+/// time limit of ONE case (a case takes milliseconds; `check` and the read-back run on threads — tree loaders, the shared
+/// rayon pool — so a lost wake-up or a dead worker would otherwise block the whole run until `./check` kills it, without
+/// an observation): 60 s, 15 s once a case has hung (`VH_C05_CASE_TIMEOUT_S` overrides the first)
+fn case_timeout() -> std::time::Duration {
+    let first = std::env::var("VH_C05_CASE_TIMEOUT_S").ok().and_then(|v| v.parse().ok()).unwrap_or(60u64);
+    std::time::Duration::from_secs(if HUNG_CASES.load(std::sync::atomic::Ordering::SeqCst) == 0 { first } else { first.min(15) })
+}
+
 pub fn exec(toks: &[&str]) -> String {
     if toks.len() < 3 || toks[0] != "chk" {
         return "bad-op".into();
     }
     let label = toks[1];
+    let class = label.split('.').take(2).collect::<Vec<_>>().join(".");
     let Some(bar) = toks.iter().position(|t| *t == "|") else { return "bad-op".into() };
     let abs: Vec<String> = toks[2..bar].iter().map(|s| (*s).to_string()).collect();
     let Some((key, store, expected)) = parse_store(&toks[bar + 1..]) else { return "bad-op".into() };
-    let out = crate::util::guarded(move || {
+    // Every case runs on a thread of its own under a watchdog: it ends with an observation, never with a hang.  After three
+    // hung cases the shared pools may be blocked for good; the rest of the run is answered at once (and loudly).
+    if HUNG_CASES.load(std::sync::atomic::Ordering::SeqCst) >= 3 {
+        return format!("oracle-fail:hang:not-run-after-3-hung-cases:{class}");
+    }
+    let (tx, rx) = std::sync::mpsc::channel::<String>();
+    let spawned = std::thread::Builder::new().name("c05-case".into()).stack_size(16 << 20).spawn(move || {
+        _ = tx.send(exec_case(abs, key, store, expected));
+    });
+    if spawned.is_err() {
+        return "panic:cannot-spawn-case-thread".into();
+    }
+    let out = match rx.recv_timeout(case_timeout()) {
+        Ok(out) => out,
+        Err(std::sync::mpsc::RecvTimeoutError::Timeout) => {
+            _ = HUNG_CASES.fetch_add(1, std::sync::atomic::Ordering::SeqCst);
+            return format!("oracle-fail:hang:{class}");
+        }
+        Err(std::sync::mpsc::RecvTimeoutError::Disconnected) => "panic:case-thread-died".to_string(),
+    };
+    if out == "oracle-fail:silent" { format!("oracle-fail:silent:{class}") } else { out }
+}
+
+fn exec_case(abs: Vec<String>, key: MasterKey, store: Store, expected: BTreeMap<String, String>) -> String {
+    crate::util::guarded(move || {
         let h = RepoHandle { be: MemBackend::from_store(store.clone()), hot: None, key: key.clone() };
         // op lines from before the metadata fields (corpus): file-node tokens have 4 fields
         let old_form = abs.iter().any(|t| t.starts_with("n:f:") && t.split(':').count() == 4);
@@ -537,12 +573,7 @@ pub fn exec(toks: &[&str]) -> String {
             return format!("errs={errs} restore=-");
         }
         format!("errs={errs} restore={}", if ok { "ok" } else { "bad" })
-    });
-    if out == "oracle-fail:silent" {
-        format!("oracle-fail:silent:{}", label.split('.').take(2).collect::<Vec<_>>().join("."))
-    } else {
-        out
-    }
+    })
 }
 
 // ---------------------------------------------------------------------------------------------------------
@@ -1233,33 +1264,28 @@ pub fn line(label: &str, key: &MasterKey, store: &Store, expected: &BTreeMap<Str
 pub fn generate(thorough: bool, rng: &mut Rng, ops: &mut Vec<String>, stats: &mut Stats) {
     let n_repos = if thorough { 60 } else { 10 };
     let per_repo_cap = if thorough { 300 } else { 110 };
+    let mut late: Vec<String> = Vec::new();
     for r in 0..n_repos {
-        // the first repository of every run is the stdin-style one (packs holding only a root tree)
-        // … the third one (and every fourth after it) has a forget/prune history with packs marked for deletion
-        let built = if r == 0 {
-            build_stdin_pair(stats, rng.chance(1, 2))
-        } else if r % 10 == 8 {
-            // snapshots with delete marks (delete-after passed / in the future, delete-never), each holding data of its own
-            build_delete_marks(rng, stats)
-        } else if r % 10 == 9 {
+        // repository kinds by position (quick = one round of 10, thorough = 6 rounds): the first repository of every run is the
+        // stdin-style pair (packs holding only a root tree); the kinds that need a history come early
+        let built = match r % 10 {
+            0 if r == 0 => build_stdin_pair(stats, rng.chance(1, 2)),
             // backup, backup, forget the first, no prune: packs holding used next to unused blobs
-            build_partly_used(rng, stats)
-        } else if r % 4 == 2 {
-            build_pruned(rng, stats)
-        } else if r == 3 {
-            // … the fourth one reaches a tree only through the subtree of a file node
-            build_file_subtree(stats, rng.chance(1, 2))
-        } else if r % 8 == 5 {
-            // real stdin snapshots: nodes with recorded size 0 and real content
-            build_stdin_real(rng, stats)
-        } else if r % 8 == 4 {
+            1 => build_partly_used(rng, stats),
+            // snapshots with delete marks (delete-after passed / in the future, delete-never), each holding data of its own
+            2 => build_delete_marks(rng, stats),
+            // a tree reached only through the subtree of a file node
+            3 if r == 3 => build_file_subtree(stats, rng.chance(1, 2)),
             // a hardlinked file overwritten in place between backups (same inode and link count, new content)
-            build_hardlink_history(rng, stats)
-        } else if r % 8 == 7 {
+            4 => build_hardlink_history(rng, stats),
+            // real stdin snapshots: nodes with recorded size 0 and real content
+            5 => build_stdin_real(rng, stats),
+            // forget/prune history with packs marked for deletion, the forgotten data uploaded again
+            6 | 9 => build_pruned(rng, stats),
             // files whose recorded size is not the length of their content
-            build_size_mismatch(rng, stats)
-        } else {
-            build_repo(rng, stats, r == 1)
+            7 => build_size_mismatch(rng, stats),
+            // 1–3 backups of small trees or stdin-style single files (repository 8: stdin-style only)
+            _ => build_repo(rng, stats, r == 8),
         };
         let Some(b) = built else {
             stats.hit("repo.build-failed");
@@ -1279,7 +1305,11 @@ pub fn generate(thorough: bool, rng: &mut Rng, ops: &mut Vec<String>, stats: &mu
         }
         for (label, store) in ds {
             stats.hit(format!("fault.{label}"));
-            ops.push(line(&label, &b.h.key, &store, &b.expected));
+            let l = line(&label, &b.h.key, &store, &b.expected);
+            // `./check` turns only the first 40 disagreeing cases of a run into reports: the cases of the open known finding
+            // (snapshot files exchanged / overwritten by a sibling, DESIGN §7 #12 — three or four per repository) go last
+            if label == "swap.snapshot" || label == "swap.snapshot.samesize" || label == "replace.snapshot" { late.push(l) } else { ops.push(l) }
         }
     }
+    ops.append(&mut late);
 }
